@@ -44,10 +44,12 @@ def _case(draw):
     rng = np.random.default_rng(draw(SEEDS))
     m = draw(st.integers(1, 6))
     full = name in ("ConFIG", "UPGrad")
-    n = draw(st.integers(m if full else 1, 9))
+    # ConFIG's unit rows do not depend on c, so it is linear in c on tall (m > n, rank n) matrices too: a third of its cases
+    tall = name == "ConFIG" and m >= 2 and draw(st.sampled_from([True, False, False]))
+    n = draw(st.integers(1, m - 1)) if tall else draw(st.integers(m if full else 1, 9))
     if full:
         J = build("svd", m, n, rng, {"cond": 10.0 ** draw(st.floats(0, 1.4))})
-        fam = "svd_full"
+        fam = "svd_tall" if tall else "svd_full"
     else:
         fam = draw(st.sampled_from(["gauss", "conflict", "gauss", "grid", "orthoblock", "orthoblock"]))
         J = rng.integers(-4, 5, size=(m, n)) / 2.0 if fam == "grid" else build(fam, m, n, rng, {"eps": 1e-2, "delta": 1e-2})
